@@ -92,6 +92,24 @@ def check_get_note(ctx, ti):
                     ctx.check(T.pitch(r.name, r.octave) == op[s] + f, "get_Note/pitch", lambda: "%s string %d fret %d -> %s-%d" % (t.instrument, s, f, r.name, r.octave))
             else:
                 ctx.raises("get_Note/out-of-range", (RangeError,), t.get_Note, s, f)
+    # notes handed out by the tuning are the caller's: changing them must not move the strings
+    for s in range(n):
+        for f in (0, 1, 12):
+            r = ctx.ok("get_Note", t.get_Note, s, f)
+            if not failed(r):
+                r.octave_up()
+                r.augment()
+                r.transpose("3")
+    nc = ctx.ok("frets_to_NoteContainer", t.frets_to_NoteContainer, [0] * n)
+    if not failed(nc):
+        nc.transpose("5")
+        nc.augment()
+    for s in range(n):
+        r = ctx.ok("get_Note", t.get_Note, s, 0)
+        ctx.check(failed(r) or T.pitch(r.name, r.octave) == op[s], "get_Note/tuning-changed-through-returned-note",
+                  lambda: "%s / %s string %d now sounds %s-%d, open pitch was %d" % (t.instrument, t.description, s, r.name, r.octave, op[s]))
+    fr = ctx.ok("find_frets", t.find_frets, Note(op[0] + 5))
+    ctx.check(failed(fr) or fr[0] == 5, "get_Note/tuning-changed-through-returned-note", lambda: "find_frets after mutation: %r" % (fr,))
     ctx.ok("count_strings", t.count_strings)
     ctx.check(t.count_strings() == n, "count_strings", "")
     ctx.evaluations += (n + 4) * 29 - 1
@@ -231,12 +249,18 @@ def _wide_enough(text, bars_desc, op):
     ms = tabread.marker_lines(text)
     if not ms:
         return False
-    sd = min((tabread.star_distance(m) or 0) for m in ms)
-    if sd < 2:
+    # smallest distance between two neighbouring beat markers anywhere = columns per beat of the bar with the largest beat unit,
+    # so (that distance x the largest beat unit) never over-estimates the columns per whole note
+    gaps = []
+    for m in ms:
+        stars = [i for i, c in enumerate(m) if c == "*"]
+        gaps += [b - a for a, b in zip(stars, stars[1:])]
+    if not gaps or min(gaps) < 2:
         return False
+    per_whole = min(gaps) * max(meter[1] for (meter, _) in bars_desc)
     for (meter, entries) in bars_desc:
         for (v, ps) in entries:
-            cols = math.floor(sd * meter[1] / float(RV.number(v)))
+            cols = math.floor(per_whole / float(RV.number(v)))
             digits = 2 if ps and max(p - min(op) for p in ps) >= 10 else 1
             if cols < digits + 1:
                 return False
@@ -276,7 +300,7 @@ def check_tab(ctx, case):
         tt = plain[(ti + 7 * k) % len(plain)] if kind == "comp" else t
         o = _open(tt)
         track = Track()
-        track.set_tuning(tt)
+        track.set_tuning(plain[(ti + 11) % len(plain)] if (kind == "track" and case.get("other_own_tuning") and not case.get("use_track_tuning")) else tt)
         desc = []
         for bd in tr:
             b = Bar("C", (bd["meter"][0], bd["meter"][1]))
@@ -442,7 +466,8 @@ def _tab_st():
     width = st.sampled_from([40, 60, 61, 80, 100, 120, 121, 160]) | st.integers(40, 160)
     small = st.fixed_dictionaries({"kind": st.sampled_from(["note", "nc"]), "tuning": st.integers(0, 100), "width": st.integers(20, 160), "pos": _pos_st()})
     big = st.fixed_dictionaries({"kind": st.sampled_from(["bar", "track", "track", "comp"]), "tuning": st.integers(0, 100), "width": width,
-                                 "tracks": st.lists(track, min_size=1, max_size=3), "use_track_tuning": st.booleans()})
+                                 "tracks": st.lists(track, min_size=1, max_size=3), "use_track_tuning": st.booleans(),
+                                 "other_own_tuning": st.booleans()})
     return st.one_of(small, big, big)
 
 
